@@ -433,8 +433,14 @@ def write_evidence(ctx, coverage, violations, assumptions=None, level="proof"):
         "repo_tree": repo_tree_hash(ctx.repo),
         "repo": ctx.repo,
     }
-    os.makedirs(os.path.join(VERIF, "evidence"), exist_ok=True)
-    p = os.path.join(VERIF, "evidence", ctx.id + ".json")
+    # evidence/<id>.json describes runs against /repo itself; a run against a scratch tree (VERIF_REPO, used to try
+    # the checks on seeded changes) leaves it alone and writes under work/
+    if os.path.realpath(ctx.repo) == os.path.realpath("/repo"):
+        edir = os.path.join(VERIF, "evidence")
+    else:
+        edir = os.path.join(VERIF, "work", "evidence-scratch")
+    os.makedirs(edir, exist_ok=True)
+    p = os.path.join(edir, ctx.id + ".json")
     tmp = p + ".tmp%d" % os.getpid()
     open(tmp, "w").write(json.dumps(ev, indent=1))
     os.replace(tmp, p)
